@@ -30,11 +30,11 @@ Print Assumptions C16_frame.
     destruction included), what session [i] observes and the state it ends in
     are those of its solo run. *)
 Theorem C16_interleave_invariance :
-  forall (sess op obs pers : Type) snew sstep pstep rejected (h : list (call op)) (s : svc sess pers) i x,
-  lookup sess i (live _ _ s) = Some x -> quiet_for op i h = true ->
+  forall (sess op obs pers : Type) snew sstep pstep rejected (h : list (call op)) (s : svc sess pers) i x st,
+  lookup sess i (live _ _ s) = Some (x, st) -> quiet_for op i h = true ->
   obs_on op obs i (snd (run sess op obs pers snew sstep pstep rejected s h))
     = snd (solo sess op obs sstep x (calls_on op i h)) /\
-  lookup sess i (live _ _ (fst (run sess op obs pers snew sstep pstep rejected s h)))
+  option_map fst (lookup sess i (live _ _ (fst (run sess op obs pers snew sstep pstep rejected s h))))
     = Some (fst (solo sess op obs sstep x (calls_on op i h))).
 Proof. exact interleave_invariance. Qed.
 Print Assumptions C16_interleave_invariance.
@@ -69,10 +69,36 @@ Theorem C16_ids_distinct :
 Proof. exact ids_distinct. Qed.
 Print Assumptions C16_ids_distinct.
 
-(** Non-vacuity: two interleaved sessions, one destroyed and used afterwards. *)
+(** The stale sweep removes exactly the sessions idle for more than the life
+    span (their ids are then rejected by [C16_dead_id_rejected]); a session that
+    accepted a call within the last life span survives it. *)
+Theorem C16_stale_swept :
+  forall (sess op obs pers : Type) snew sstep pstep rejected (s : svc sess pers) i e,
+  NoDup (keys sess (live _ _ s)) -> lookup sess i (live _ _ s) = Some e ->
+  lookup sess i (live _ _ (fst (step sess op obs pers snew sstep pstep rejected s CleanupStale)))
+    = (if stale sess (now _ _ s) e then None else Some e).
+Proof. exact stale_swept. Qed.
+Print Assumptions C16_stale_swept.
+
+Theorem C16_active_session_survives :
+  forall (sess op obs pers : Type) snew sstep pstep rejected (s : svc sess pers) i o d,
+  NoDup (keys sess (live _ _ s)) -> lookup sess i (live _ _ s) <> None -> (d <= life_span)%N ->
+  let s1 := fst (step sess op obs pers snew sstep pstep rejected s (Call i o)) in
+  let s2 := fst (step sess op obs pers snew sstep pstep rejected s1 (Advance d)) in
+  lookup sess i (live _ _ (fst (step sess op obs pers snew sstep pstep rejected s2 CleanupStale))) <> None.
+Proof. exact active_session_survives. Qed.
+Print Assumptions C16_active_session_survives.
+
+(** Non-vacuity: two interleaved sessions, one destroyed and used afterwards; a stale sweep. *)
 Example C16_example :
   let h := [Create 1; Call 1 5; Create 2; Call 2 7; Call 1 1; Destroy 2; Call 2 3; Call 1 2; Find 2]%N in
   quiet_for toy_op 1%N (tl h) = true /\
   obs_on toy_op toy_obs 1%N (toy_run h) = [(true, 5); (true, 6); (true, 8)]%N /\
   obs_on toy_op toy_obs 2%N (toy_run h) = [(true, 7); (false, 0)]%N.
+Proof. vm_compute. repeat split. Qed.
+
+Example C16_example_stale :
+  let h := [Create 1; Create 2; Advance 200; Call 2 1; Advance 200; CleanupStale; Call 1 1; Call 2 1]%N in
+  obs_on toy_op toy_obs 1%N (toy_run h) = [(false, 0)]%N /\
+  obs_on toy_op toy_obs 2%N (toy_run h) = [(true, 1); (true, 2)]%N.
 Proof. vm_compute. repeat split. Qed.
